@@ -31,7 +31,8 @@ const (
 
 type fsmEvent struct {
 	Kind      byte
-	WinClosed bool // recording window closed while this event is processed
+	At        time.Time // wall-clock instant of this event (zero: derived from WinClosed)
+	WinClosed bool      // recording window closed while this event is processed
 	CheckFail bool // CheckCanRecord of the motion sink refuses
 	StartFail bool // StartRecording of the motion sink fails
 }
@@ -250,7 +251,9 @@ func fsmMotionConfig(trigger int) *config.ThermalMotion {
 	}
 }
 
-func newFsmRun(cfg fsmConfig) *fsmRun {
+func newFsmRun(cfg fsmConfig) *fsmRun { return newFsmRunWindow(cfg, winStart, winStop) }
+
+func newFsmRunWindow(cfg fsmConfig, wStart, wStop string) *fsmRun {
 	if cfg.ResX == 0 {
 		cfg.ResX, cfg.ResY = 3, 2
 	}
@@ -258,7 +261,7 @@ func newFsmRun(cfg fsmConfig) *fsmRun {
 	for i := range r.sinks {
 		r.sinks[i] = &monSink{run: r, which: i}
 	}
-	w, err := window.New(winStart, winStop, 0, 0)
+	w, err := window.New(wStart, wStop, 0, 0)
 	if err != nil {
 		panic(err)
 	}
@@ -282,7 +285,9 @@ func (r *fsmRun) step(ev fsmEvent) *stepRec {
 	r.steps = append(r.steps, stepRec{Ev: ev, Seq: -1, Acc: -1})
 	rec := &r.steps[len(r.steps)-1]
 	r.cur, r.curRec = &rec.Ev, rec
-	if ev.WinClosed {
+	if !ev.At.IsZero() {
+		r.now = ev.At
+	} else if ev.WinClosed {
 		r.now = timeClosed
 	} else {
 		r.now = timeOpen
